@@ -122,8 +122,9 @@ def check_result(gs, out):
     rs = lst(out)
     if len(set(rs)) != len(rs):
         return f"returned strings are not distinct: {rs}"
-    if not (2 * n + 1 <= len(rs) <= len(set(gs))):
-        return f"returned {len(rs)} strings, expected between {2 * n + 1} and {len(set(gs))}"
+    low = 2 * n + 1 if n >= 2 else 2      # C20_min_generators (n >= 2); for n = 1 two strings generate su(2) (C20_min_fails_n1)
+    if not (low <= len(rs) <= len(set(gs))):
+        return f"returned {len(rs)} strings, expected between {low} and {len(set(gs))}"
     return None
 
 def batch_oracle(lines, outs):
@@ -276,6 +277,14 @@ def build_streams(rng, tier):
     lines = []
     for n, cnt in ((2, 120), (3, 120), (4, 40)) if not th else ((2, 400), (3, 600), (4, 300), (5, 40)):
         lines += [line_for(rng, n) for _ in range(cnt)]
+    # n = 1: every list of 2..4 letters from X, Y, Z with at least two different ones generates su(2); two independents, target
+    # floor(0.706*1) = 0 edges (the smallest legitimate target).  Size clause there: 2 = 2n (C20_min_fails_n1: 2n+1 is the minimum
+    # from n = 2 on only), the other clauses as for every n
+    import itertools
+    for k in (2, 3, 4):
+        for gs in itertools.product("XYZ", repeat=k):
+            if len(set(gs)) >= 2:
+                lines.append(G.line_of("optimise", list(gs), ",".join(str(rng.randint(0, 10 ** 6)) for _ in range(40))))
     # the same input under several seeds of the tie-breaking
     seeds = []
     for _ in range(12 if not th else 60):
@@ -324,9 +333,21 @@ RULE = ("generating sets of su(2^n) (random strings until the closure is all 4^n
 # the members outside that list really generate less than the input.  Any other failure of C20 stays a VIOLATION.
 KNOWN_SIG = "dependents-not-removable:reproduced-by-Model.Morph.classify"
 _KM = {}
+KNOWN_SIG_INDEX = "index-error:randint-beyond-connections:repeated-members:reproduced-by-Model.Optimise"
+
 def known_match(stream, line, why):
     t = line.split(" ")
     if t[0] not in ("optimise", "indep", "optedit") or not why:
+        return None
+    if t[0] == "optimise" and "the search raised IndexError" in why:
+        # recorded finding 2: only for inputs WITH repeated members, and only if the exact Lean model of the search raises the
+        # same IndexError on the same line (same random stream); anything else that raises is reported
+        gs = lst(t[1])
+        try:
+            if len(set(gs)) < len(gs) and run_model([line])[0] == "!IndexError":
+                return KNOWN_SIG_INDEX
+        except Exception:
+            pass
         return None
     if not any(x in why for x in ("a needed generator was recorded as dependent", "strings, expected between", "generates", "generate")):
         return None
